@@ -26,7 +26,9 @@ package drpcmigrate
 //@   modifies *
 //@   assumes "the routes map only holds non-nil listeners (Route stores the result of newListener)"
 //@   site (*Mutex).Unlock assume [routes-nonnil] lis != nil
-//@   site newPrefixConn assert [C16.replay-prefix] !ok && arg0 == buf && len(buf) == m.prefixLen && arg1 == conn0
+//@   ghost entry rbuf = nil
+//@   ghost call:ReadFull rbuf = arg1
+//@   site newPrefixConn assert [C16.replay-prefix] !ok && arg0 == rbuf && len(arg0) == m.prefixLen && arg1 == conn0
 //@   site Close assert [C16.close-original-or-wrapper] arg0 != nil
 //@   check [C16.exactly-once] eventCount("invoke:Close") + eventCount("select:1") == 1
 //@   check [C16.read-error-closes] eventCount("select:") == 0 ==> eventCount("invoke:Close") == 1
